@@ -56,8 +56,8 @@ BOUNDS = {
     "quick": "integer laws (constructors, front/trailing/full sub-regions, 1D/2D extraction, region rotation, layouts): every coordinate, "
              "pixel range, window bound, probe pixel and the array shape are solver integers with |value| <= 10^6 (CrossHair twins: unbounded "
              "ints); read-out corner: both components solver integers in {0,1} (4 corners by forking). Array laws: array values symbolic reals; "
-             "rotation/commutation on every shape <= 5x5 with every region inside it (region bounds are solver integers, the slice bounds are "
-             "concretised by forking) and, without concretisation, per-pixel membership/position for every shape <= 6x6 (pixel permutation "
+             "rotation/commutation on every shape with sides <= 5 and at most 16 pixels, with every region inside it (region bounds are solver "
+             "integers, the slice bounds are concretised by forking) and, without concretisation, per-pixel membership/position for every shape <= 6x6 (pixel permutation "
              "taken from the real rotate_array on a label array); extraction through Layout2D/Array2D on every shape <= 3x3 with every "
              "region and every window inside it, Layout1D on lengths <= 5",
     "thorough": "same integer laws; array rotation/commutation on every shape <= 7x7, label-permutation law <= 8x8, "
@@ -67,7 +67,8 @@ OUTSIDE = [
     "array shapes beyond the enumerated bounds for the array-level laws (the integer laws carry the shape as a solver integer)",
     "roe_corner values other than the four tuples (1,0),(0,0),(1,1),(0,1) (rotate_* return None for anything else, also for lists)",
     "regions given as anything but int tuples / Region objects (float or numpy coordinates)",
-    "Layout2D.shape_2d after layout_extracted_from (it keeps the parent shape; the property only speaks about the regions)",
+    "Layout2D.shape_2d of an extracted layout is only observed through the composition extract-then-rotate (known finding "
+    "extracted-layout-stale-shape), not compared as an attribute",
     "rotate_pattern_ci_via_roe_corner_from (PyAutoCTI pattern objects), binned overscan arrays (means, C08/C14 territory)",
 ]
 STUBS = []
@@ -426,6 +427,12 @@ def body_layout_extracted(inp, slot):
     E["member"] = ref_member_2d(o, e, p, q)
     A["original_roe_corner"] = list(new.original_roe_corner)
     E["original_roe_corner"] = list(corner)
+    # composition of the two laws: the extracted layout indexes the extracted window (shape = window shape), so rotating it
+    # must agree with rotating that window - the rotated region is the image of the overlap inside the window
+    if ref is not None and getattr(new, slot) is not None:
+        rot = hx.attempt(lambda: new.new_rotated_from(roe_corner=corner))
+        A["extract_then_rotate"] = rot if isinstance(rot, hx.Raised) else got(getattr(rot, slot))
+        E["extract_then_rotate"] = ref_rot_region(ref, (e[1] - e[0], e[3] - e[2]), corner)
     A["parent_untouched"] = [got(getattr(lay, s)) == (o if s == slot else None) for s in SLOTS]
     E["parent_untouched"] = [True, True, True]
     return A, E
@@ -436,7 +443,14 @@ def case_layout_extracted(ctx, slot):
     _valid2d(ctx, o, shape)
     _valid2d(ctx, e, shape)
     corner = _corner(ctx)
-    hx.run_body(ctx, body_layout_extracted, {"o": o, "e": e, "probe": probe, "shape": shape, "corner": corner}, {"slot": slot}, validate_every=4)
+    kn = None
+    ids = _known("extracted-layout-stale-shape")
+    if ids:
+        # finding region: the rotation flips an axis along which the window is smaller than the parent shape kept in shape_2d
+        region = z3.Or(z3.And(corner[0].t == 0, e[1].t - e[0].t != shape[0].t), z3.And(corner[1].t == 1, e[3].t - e[2].t != shape[1].t))
+        kn = {"extract_then_rotate": {ids[0]: region}}
+    hx.run_body(ctx, body_layout_extracted, {"o": o, "e": e, "probe": probe, "shape": shape, "corner": corner}, {"slot": slot},
+                known=kn, validate_every=4)
 
 
 # ----------------------------------------------------------------------------------------------- rotation (integers)
@@ -905,13 +919,22 @@ def cases(tier):
     for fn in CH_FUNCS:
         out.append(("case_crosshair", {"fn": fn, "timeout_s": ch_t}))
     heavy = []
+    tri = lambda n: n * (n + 1) // 2
+
+    def split_for(paths):
+        return {} if paths < 300 else {"split": 2 if paths < 1200 else (3 if paths < 2500 else 4)}
+
     for H in range(1, rot_max + 1):
         for W in range(1, rot_max + 1):
-            heavy.append(("case_rotate_array", {"H": H, "W": W}, {"split": 2} if H * W >= 16 else {}))
+            if quick and H * W > 16:
+                continue
+            n = 4 * tri(H) * tri(W)                       # corners x regions inside the shape = paths of the case
+            heavy.append((n, ("case_rotate_array", {"H": H, "W": W}, split_for(n))))
     for H in range(1, ext_max + 1):
         for W in range(1, ext_max + 1):
-            heavy.append(("case_extract_array", {"H": H, "W": W}, {"split": 3} if H * W >= 9 else {}))
-    heavy.sort(key=lambda c: -(c[1]["H"] * c[1]["W"]) ** (2 if c[0] == "case_extract_array" else 1))
+            n = (tri(H) * tri(W)) ** 2                    # regions x windows
+            heavy.append((n, ("case_extract_array", {"H": H, "W": W}, split_for(n))))
+    heavy = [c for _, c in sorted(heavy, key=lambda t: -t[0])]
     out += heavy
     out += [("case_ctor", {"dim": 2}), ("case_ctor", {"dim": 1})]
     out += [("case_sub2d", {"method": m}) for m in SUB2D]
